@@ -31,7 +31,7 @@ Judge(c) ==
       fok == \A f \in DOMAIN c.flags : c.flags[f] = 1
   IN /\ PrintT("VERDICT " \o ToJson(<<c.id, IF gok THEN 1 ELSE 0, IF aok THEN 1 ELSE 0, IF fok THEN 1 ELSE 0,
                                       Cardinality(exp)>>))
-     /\ (gok /\ aok) \/ PrintT("DIFF " \o ToJson(<<c.id,
+     /\ IF gok /\ aok THEN TRUE ELSE PrintT("DIFF " \o ToJson(<<c.id,
              SetToSeq({x.term : x \in {y \in exp : ~\E o \in obs : o.term = y.term}}),
              SetToSeq({o.term : o \in {y \in obs : ~\E x \in exp : x.term = y.term /\ x.args = y.args}})>>))
 
